@@ -23,7 +23,7 @@ class Prop(BaseProp):
     budget = {"quick": 700, "thorough": 84000}
     must_see = ["N>=4", "indices_non_prefix", "indices_reversed", "indices_not_sorted", "indices_skip_0",
                 "empty_train_in_list", "simultaneous_spikes", "max_tau_positive", "mrts_positive",
-                "leader_follower_pair_seen", "swap_checked", "matrix_checked", "synfire_checked"]
+                "leader_follower_pair_seen", "swap_checked", "matrix_checked", "synfire_checked", "history_probe"]
     must_contracts = ["inv:DiscreteFunc"]
     arm_files = [("pyspike/cython/directionality_python_backend.py", None),
                  ("pyspike/spike_directionality.py", None)]
@@ -89,6 +89,27 @@ class Prop(BaseProp):
                 common.arr_exact(ctx, profs.y[1:-1], [-v for v in yr], "order-swap", "swapped order profile must be negated")
             dus = ctx.call(ps.spike_directionality, B, A, normalize=False, **kw)
             ctx.close(dus, -sum(d1r), "directionality-swap", "spike_directionality(B,A,normalize=False) must be the negative", rel=1e-12)
+
+        # ---------------- state must not leak between calls (see C01.history_probes)
+        if ctx.evals % 3 == 0 and len(a) + len(b) <= 40:
+            ctx.count("history_probe")
+            prof.y[:] = 9.0
+            again = ctx.call(ps.spike_train_order_profile, A, B, _repeat=False, **kw)
+            if common.same_axis(ctx, again.x, xr, "order:state-leak:returned-object-shared", "order profile after the caller modified the previously returned profile") and not ambiguous:
+                common.arr_exact(ctx, again.y[1:-1], yr, "order:state-leak:returned-object-shared", "order profile y after the caller modified the previously returned profile")
+            Tw = te - ts
+            ts2, te2 = ts - Tw / 4, te + Tw / 2
+            w1 = ps.SpikeTrain(np.array(a, dtype=float), [ts2, te2])
+            w2 = ps.SpikeTrain(np.array(b, dtype=float), [ts2, te2])
+            nearw = ref.coincidences_ref(a, b, ts2, te2, mt or 0, m, want_ties=True)[4]
+            if not (nearw and not dy):
+                xw, yw, mpw, d1w, d2w = ref.order_ref(a, b, ts2, te2, mt or 0, m)
+                wide = ctx.call(ps.spike_train_order_profile, w1, w2, _repeat=False, **kw)
+                if common.same_axis(ctx, wide.x, xw, "order:state-leak:same-spikes-other-interval", "order profile of the same spike times on the wider interval"):
+                    common.arr_exact(ctx, wide.y[1:-1], yw, "order:state-leak:same-spikes-other-interval", "order profile y on the wider interval")
+                vw = ctx.call(ps.spike_directionality_values, w1, w2, _repeat=False, **kw)
+                common.arr_exact(ctx, vw[0], d1w, "order:state-leak:same-spikes-other-interval", "directionality values of train 1 on the wider interval")
+                common.arr_exact(ctx, vw[1], d2w, "order:state-leak:same-spikes-other-interval", "directionality values of train 2 on the wider interval")
 
         # ---------------- multivariate layer: identities between real executions
         if N >= 3:
